@@ -37,3 +37,7 @@ int deeparr_eq (int n) { mixed a = ({ }), b = ({ }); int i; for (i = 0; i < n; i
 int rpl1 (int n, int r) { mixed x = replace_string (repeat_string ("a", n), "a", repeat_string ("x", r)); return stringp (x) ? strlen (x) : -1; }
 int rpl0 (int n, int r) { mixed x = replace_string (repeat_string ("ab", n), "ab", repeat_string ("x", r)); return stringp (x) ? strlen (x) : -1; }
 int rplmax (int n, int r, int first, int last) { mixed x = replace_string (repeat_string ("ab", n), "ab", repeat_string ("x", r), first, last); return stringp (x) ? strlen (x) : -1; }
+int deepfp_nofmt (int n) { function f = (: spin :); int i; for (i = 0; i < n; i++) f = (: call_other, this_object (), "kind", f :); f = 0; return n; }
+function gfp;
+int deepfp_keep (int n) { function f = (: spin :); int i; for (i = 0; i < n; i++) f = (: call_other, this_object (), "kind", f :); gfp = f; return n; }
+int fmt_kept () { return strlen (sprintf ("%O", gfp)); }
